@@ -49,9 +49,10 @@ pub struct InstSpec {
 
 #[derive(Clone, Debug, PartialEq, Eq, Serialize, Deserialize)]
 pub enum NodeKind {
-    Discovery { service: String, instance: InstSpec, ttl: u32, channel: bool },
-    Responder { ttl: u32 },
-    Resolver,
+    /// `asyncv`: run the tokio variant (simple_mdns::async_discovery) instead of the sync one
+    Discovery { service: String, instance: InstSpec, ttl: u32, channel: bool, #[serde(default)] asyncv: bool },
+    Responder { ttl: u32, #[serde(default)] asyncv: bool },
+    Resolver { #[serde(default)] asyncv: bool },
     RawPeer { port: Option<u16>, joined: bool },
 }
 
@@ -420,7 +421,7 @@ pub fn generate(seed: u64, focus: &str, profile: Profile) -> Scenario {
         script.push((duration_ms, AppOp::DumpStore));
         script.sort_by_key(|x| x.0);
         nodes.push(NodeSpec {
-            kind: NodeKind::Discovery { service, instance: spec, ttl, channel: r.chance(1, 2) },
+            kind: NodeKind::Discovery { service, instance: spec, ttl, channel: r.chance(1, 2), asyncv: r.chance(1, 3) },
             start_ms: t_in(&mut r, 0, (duration_ms / 3).max(1)),
             script,
         });
@@ -481,7 +482,7 @@ pub fn generate(seed: u64, focus: &str, profile: Profile) -> Scenario {
             script.sort_by_key(|x| x.0);
         }
         resp_records.push(mine);
-        nodes.push(NodeSpec { kind: NodeKind::Responder { ttl }, start_ms: t_in(&mut r, 0, 100), script });
+        nodes.push(NodeSpec { kind: NodeKind::Responder { ttl, asyncv: r.chance(1, 3) }, start_ms: t_in(&mut r, 0, 100), script });
     }
 
     // ---- one-shot resolver
@@ -493,7 +494,7 @@ pub fn generate(seed: u64, focus: &str, profile: Profile) -> Scenario {
             script.push((at, if r.chance(1, 2) { AppOp::QueryAddress(n) } else { AppOp::QueryAddressPort(n) }));
         }
         script.sort_by_key(|x| x.0);
-        nodes.push(NodeSpec { kind: NodeKind::Resolver, start_ms: 0, script });
+        nodes.push(NodeSpec { kind: NodeKind::Resolver { asyncv: r.chance(1, 3) }, start_ms: 0, script });
     }
 
     // ---- raw peers
